@@ -724,7 +724,10 @@ func xReplayWith(tag string) func(i int, raw json.RawMessage) Result {
 }
 
 func init() {
-	commands["replay-exec"] = func(a []string) int { return replayLoop(a[0], a[1], xReplayWith("")) }
+	commands["replay-exec"] = func(a []string) int {
+		defer installTracer()()
+		return replayLoop(a[0], a[1], xReplayWith(""))
+	}
 }
 
 // ---- C01: value catalogue with HTML-special bytes ------------------------------------------
